@@ -174,7 +174,7 @@ Proof. vm_compute. reflexivity. Qed.
 
 (* a / x: a FloatFingerprint with every count divided *)
 Theorem div_spec : forall a x r, is_count_like a = true -> fp_div a x = Ok r ->
-  ~ x == 0 /\ fkind r = KFloat /\ fbits r = fbits a /\ flevel r = flevel a /\ fname r = fname a /\
+  (x == 0 -> fcnt a = []) /\ fkind r = KFloat /\ fbits r = fbits a /\ flevel r = flevel a /\ fname r = fname a /\
   ckeys (fcnt r) = ckeys (fcnt a) /\
   (forall i, In i (ckeys (fcnt a)) -> cget (fcnt r) i = (cget (fcnt a) i / x)%Q) /\
   (forall i, cget (fcnt r) i == (cget (fcnt a) i / x)%Q).
@@ -185,10 +185,20 @@ Example div_nonvacuous :
   = Ok (mkfp KFloat 8 (Some 5) [1; 3] [(1, 2 # 2); (3, 7 # 2)] None).
 Proof. vm_compute. reflexivity. Qed.
 
+(* division by zero: ZeroDivisionError as soon as there is a count to divide (an empty fingerprint divides silently) *)
+Theorem div_by_zero : forall a x cf, from_fingerprint KFloat a = Ok cf -> x == 0 ->
+  fp_div a x = if match fcnt a with [] => true | _ => false end then Ok (set_counts KFloat cf []) else Raises EOther.
+Proof. exact div_by_zero. Qed.
+Print Assumptions div_by_zero.
+Example div_by_zero_nonvacuous :
+  fp_div (mkfp KCount 8 (Some 5) [1] [(1, 2 # 1)] None) 0 = Raises EOther /\
+  fp_div (mkfp KCount 8 (Some 5) [] [] None) 0 = Ok (mkfp KFloat 8 (Some 5) [] [] None).
+Proof. split; vm_compute; reflexivity. Qed.
+
 (* a // x: a CountFingerprint; exactly the positions holding a count v >= x are kept (indices and count keys agree),
    each with int(v / x); positions with v < x are dropped *)
 Theorem floordiv_spec : forall a x r, is_count_like a = true -> fp_floordiv a x = Ok r ->
-  ~ x == 0 /\ fkind r = KCount /\ fbits r = fbits a /\ flevel r = flevel a /\ fname r = fname a /\
+  (x == 0 -> fidx r = []) /\ fkind r = KCount /\ fbits r = fbits a /\ flevel r = flevel a /\ fname r = fname a /\
   (forall i, In i (fidx r) <-> exists v, In (i, v) (fcnt a) /\ (x <= v)%Q) /\
   (forall i, In i (ckeys (fcnt r)) <-> In i (fidx r)) /\ ssorted (fidx r) /\
   (NoDup (ckeys (fcnt a)) -> forall i,
@@ -213,6 +223,14 @@ Example floordiv_nonvacuous :
   /\ NoDup (ckeys [(1, 2 # 1); (3, 7 # 1); (6, 3 # 1)]).
 Proof. split; [vm_compute; reflexivity|]. repeat constructor; simpl; intuition discriminate. Qed.
 
+Theorem floordiv_by_zero : forall a x cf v i, from_fingerprint KCount a = Ok cf -> x == 0 -> In (i, v) (fcnt a) -> (0 <= v)%Q ->
+  fp_floordiv a x = Raises EOther.
+Proof. exact floordiv_by_zero. Qed.
+Print Assumptions floordiv_by_zero.
+Example floordiv_by_zero_nonvacuous :
+  fp_floordiv (mkfp KCount 8 (Some 5) [1] [(1, 2 # 1)] None) 0 = Raises EOther.
+Proof. vm_compute. reflexivity. Qed.
+
 (* ---------------------------------------------------------------------------------------------- *)
 (* batch sum and mean: `wsum l w i` is the sum over the paired members of count_a(i) * w_a;           *)
 (* `csum l i` the plain sum of count_a(i); `counts_of` gives 1 per set bit for bit fingerprints      *)
@@ -226,7 +244,7 @@ Proof. exact wsum_ones. Qed.
 Print Assumptions wsum_ones_is_sum.
 
 Theorem batch_add_spec : forall l r, batch_add l None = Ok (Some r) ->
-  (exists a0 l', l = a0 :: l' /\ fbits r = fbits a0 /\ flevel r = flevel a0) /\
+  (exists a0 l', l = a0 :: l' /\ fbits r = fbits a0 /\ flevel r = flevel a0) /\ (forall a, In a l -> fbits a = fbits r) /\
   fkind r = batch_kind l /\ fname r = None /\
   fidx r = all_keys l /\ ckeys (fcnt r) = fidx r /\
   (forall i, In i (fidx r) <-> exists a, In a l /\ In i (ckeys (counts_of a))) /\
@@ -249,7 +267,7 @@ Proof. vm_compute. reflexivity. Qed.
 
 Theorem batch_add_weighted_spec : forall l ws r, batch_add l (Some ws) = Ok (Some r) ->
   length ws = length l /\
-  (exists a0 l', l = a0 :: l' /\ fbits r = fbits a0 /\ flevel r = flevel a0) /\
+  (exists a0 l', l = a0 :: l' /\ fbits r = fbits a0 /\ flevel r = flevel a0) /\ (forall a, In a l -> fbits a = fbits r) /\
   fkind r = KFloat /\ fname r = None /\ fidx r = all_keys l /\ ckeys (fcnt r) = fidx r /\
   (forall i, In i (fidx r) <-> exists a, In a l /\ In i (ckeys (counts_of a))) /\
   (forall i, In i (fidx r) -> cget (fcnt r) i = wsum l ws i) /\
@@ -306,7 +324,21 @@ Print Assumptions bit_members_int_valued.
 (* rejections of the batch functions *)
 Theorem batch_rejections :
   (batch_add [] None = Ok None /\ batch_mean [] None = Raises EType) /\
-  (forall l ws, l <> [] -> length ws <> length l -> batch_add l (Some ws) = Raises EValue) /\
+  (forall l ws, l <> [] -> batch_bits_ok l = true -> length ws <> length l -> batch_add l (Some ws) = Raises EValue) /\
   (forall l ws, qsum ws == 0 -> batch_mean l (Some ws) = Raises EValue).
 Proof. exact batch_rejections. Qed.
 Print Assumptions batch_rejections.
+
+(* members of different lengths are rejected by add() and mean(), weighted or not (E3FPBitsValueError; mean() reports
+   a zero weight sum first) *)
+Theorem batch_bits_mismatch_rejected : forall l a, l <> [] -> In a l -> fbits a <> fbits (hd a l) ->
+  (forall w, batch_add l w = Raises EBits) /\ batch_mean l None = Raises EBits /\
+  (forall ws, ~ qsum ws == 0 -> batch_mean l (Some ws) = Raises EBits).
+Proof. exact batch_bits_mismatch_rejected. Qed.
+Print Assumptions batch_bits_mismatch_rejected.
+Example batch_bits_mismatch_nonvacuous :
+  let l := [mkfp KBit 8 None [1] [] None; mkfp KCount 16 None [1] [(1, 2 # 1)] None] in
+  batch_add l None = Raises EBits /\ batch_add l (Some [1 # 1; 2 # 1]) = Raises EBits /\ batch_mean l None = Raises EBits /\
+  batch_mean l (Some [1 # 1; 2 # 1]) = Raises EBits /\ batch_mean l (Some [1 # 1; (-1) # 1]) = Raises EValue /\
+  batch_add l (Some [1 # 1]) = Raises EBits.
+Proof. vm_compute. repeat split. Qed.
